@@ -513,8 +513,11 @@ func TestVerifTaskPoolRandomWalk(t *testing.T) {
 		chanOrd := map[chan UdpTask]int{}
 		var last *vActor
 		directed := 0
-		if wi%3 == 0 {
+		switch wi % 3 {
+		case 0:
 			directed = 1
+		case 1:
+			directed = 11 // the window between the worker's emptiness check and its claim (see phases 11-13)
 		}
 		for step := 0; step < 400; step++ {
 			// collect new convoys
@@ -569,6 +572,43 @@ func TestVerifTaskPoolRandomWalk(t *testing.T) {
 					}
 				}
 				if a == nil || a.at == "convoy.claimed" || a.at == "convoy.exit" {
+					a = nil
+					directed = 0
+				}
+			case directed == 11:
+				// p1 gets its first task in (runs until it is back at its start gate or done)
+				for _, c := range live {
+					if c.name == "p1" {
+						a = c
+					}
+				}
+				if a == nil || (a.at == "start" && step > 0) {
+					a = nil
+					directed = 12
+				}
+			case directed == 12:
+				// the flow's worker runs the task and goes on until its idle check has found the queue empty
+				for _, c := range live {
+					if strings.HasPrefix(c.name, "convoy") {
+						a = c
+					}
+				}
+				if a == nil || a.at == "convoy.checked" || a.at == "convoy.exit" {
+					if a != nil && a.at == "convoy.checked" {
+						directed = 13
+					} else {
+						directed = 0
+					}
+					a = nil
+				}
+			case directed == 13:
+				// ... and now a second producer of the same flow gets a whole task in before the worker claims
+				for _, c := range live {
+					if c.name == "p2" {
+						a = c
+					}
+				}
+				if a == nil || a.at == "done" || (a.at == "start" && last != nil && last.name == "p2") {
 					a = nil
 					directed = 0
 				}
